@@ -3,6 +3,7 @@ package sym
 import (
 	"fmt"
 	"go/types"
+	"math/big"
 	"sync"
 )
 
@@ -21,8 +22,18 @@ func init() {
 			}
 			return e.mkSlice(cells)
 		},
-		"verifU8":   func(e *Exec, fr *frame, args []Value) Value { return e.newInput(fmt.Sprintf("u8_%d", e.nInputBlock()), BV(8), "u8") },
-		"verifU16":  func(e *Exec, fr *frame, args []Value) Value { return e.newInput(fmt.Sprintf("u16_%d", e.nInputBlock()), BV(16), "u16") },
+		"verifU8": func(e *Exec, fr *frame, args []Value) Value {
+			if e.Cfg.IntInputsAsReal {
+				return e.newRealInt(fmt.Sprintf("i8_%d", e.nInputBlock()), 255, "u8")
+			}
+			return e.newInput(fmt.Sprintf("u8_%d", e.nInputBlock()), BV(8), "u8")
+		},
+		"verifU16": func(e *Exec, fr *frame, args []Value) Value {
+			if e.Cfg.IntInputsAsReal {
+				return e.newRealInt(fmt.Sprintf("i16_%d", e.nInputBlock()), 65535, "u16")
+			}
+			return e.newInput(fmt.Sprintf("u16_%d", e.nInputBlock()), BV(16), "u16")
+		},
 		"verifU32":  func(e *Exec, fr *frame, args []Value) Value { return e.newInput(fmt.Sprintf("u32_%d", e.nInputBlock()), BV(32), "u32") },
 		"verifU64":  func(e *Exec, fr *frame, args []Value) Value { return e.newInput(fmt.Sprintf("u64_%d", e.nInputBlock()), BV(64), "u64") },
 		"verifInt":  func(e *Exec, fr *frame, args []Value) Value { return e.newInput(fmt.Sprintf("int_%d", e.nInputBlock()), BV(64), "int") },
@@ -111,6 +122,25 @@ func init() {
 		},
 		"verifSameF32": func(e *Exec, fr *frame, args []Value) Value { return e.B.Eq(args[0].(*Term), args[1].(*Term)) },
 		"verifSameF64": func(e *Exec, fr *frame, args []Value) Value { return e.B.Eq(args[0].(*Term), args[1].(*Term)) },
+		"verifPush": func(e *Exec, fr *frame, args []Value) Value {
+			e.scopes = append(e.scopes, len(e.pcs))
+			return nil
+		},
+		"verifPop": func(e *Exec, fr *frame, args []Value) Value {
+			// leaving a scope forgets the assumptions made inside it (only weakens
+			// the path condition for what follows: sound)
+			n := e.scopes[len(e.scopes)-1]
+			e.scopes = e.scopes[:len(e.scopes)-1]
+			e.pcs = e.pcs[:n]
+			e.known = map[int]bool{}
+			e.model = nil
+			e.relVars, e.relSeen = nil, nil
+			for _, c := range e.pcs {
+				e.noteVars(c)
+			}
+			e.roundings = nil
+			return nil
+		},
 		"verifIsSymbolic": func(e *Exec, fr *frame, args []Value) Value { return e.B.Bool(true) },
 		"verifSteps": func(e *Exec, fr *frame, args []Value) Value { return e.mkInt(e.steps) },
 		"verifAllocated": func(e *Exec, fr *frame, args []Value) Value { return e.mkInt(e.allocated) },
@@ -182,6 +212,19 @@ func (e *Exec) newInput(name string, s Sort, tag string) *Term {
 	e.inputs = append(e.inputs, t)
 	e.inputTags = append(e.inputTags, tag)
 	return t
+}
+
+// newRealInt creates an integer input carried as a real (to_real of an Int
+// variable) in the range [0, max]; used by real-arithmetic harnesses so that no
+// bit-vector/real mixing (bv2nat) reaches the solver.
+func (e *Exec) newRealInt(name string, max int64, tag string) *Term {
+	v := e.B.Var(name, IntSort)
+	e.inputs = append(e.inputs, v)
+	e.inputTags = append(e.inputTags, tag)
+	r := e.B.IntToReal(v)
+	zero := e.B.RealConst(new(big.Rat))
+	e.assume(e.B.And(e.B.RCmp(ORLe, zero, r), e.B.RCmp(ORLe, r, e.B.RealConst(big.NewRat(max, 1)))))
+	return r
 }
 
 func (e *Exec) noteAssumption(s string) {
